@@ -385,6 +385,11 @@ macro_rules! field_suite {
                     x.serialize_uncompressed(&mut v).unwrap();
                     v
                 }),
+                ("serialize_compressed (3-byte writes)", |x| {
+                    let mut w = ShortWriter::new(3);
+                    x.serialize_compressed(&mut w).unwrap();
+                    w.buf
+                }),
                 ("serialize_with_flags<Empty>", |x| {
                     let mut v = Vec::new();
                     x.serialize_with_flags(&mut v, EmptyFlags).unwrap();
@@ -483,6 +488,7 @@ macro_rules! field_suite {
                         None
                     }
                 }),
+                ("deserialize_compressed (1-byte reads)", |v| if v.len() == N8 { F::deserialize_compressed(Chunked::new(v, 1)).ok() } else { None }),
                 ("deserialize_uncompressed_unchecked", |v| {
                     if v.len() == N8 {
                         F::deserialize_uncompressed_unchecked(v).ok()
@@ -670,6 +676,21 @@ macro_rules! field_suite {
                         }),
                     ),
                 );
+                // the in-place variants: the answer AND what the operand holds afterwards (unchanged on failure)
+                let ev = json!({"k":"fsqrt","field":NAME,"form":"sqrt_in_place","a":b(&a)});
+                let rr = guarded(|| {
+                    let mut x = a;
+                    let some = x.sqrt_in_place().is_some();
+                    (some, x)
+                });
+                emit(out, finish(ev, rr.map(|(some, x)| json!({"some":some,"y":if some { b(&x) } else { Vec::<u8>::new() },"after":b(&x)}))));
+                let ev = json!({"k":"fsqrt","field":NAME,"form":"inverse_in_place(after)","a":b(&a)});
+                let rr = guarded(|| {
+                    let mut x = a;
+                    let some = x.inverse_in_place().is_some();
+                    (some, x)
+                });
+                emit(out, finish(ev, rr.map(|(some, x)| json!({"some":some,"y":Vec::<u8>::new(),"after":b(&x),"inv":true}))));
             }
             #[cfg(not(feature = "ark"))]
             pub fn emit_sqrt(_out: &mut dyn Write, _a: F) {}
